@@ -32,7 +32,9 @@ EXPECTED = {
     "zvt_derive": "procmacro",
 }
 # Floors: number of bodies counted on the reference tree (fail closed when fewer).
-BODY_FLOORS = {"zvt_builder": 80, "zvt": 450, "zvt_feig_terminal": 120}
+# coarse guard against a truncated dump only (every rule has its own, exact instance floors); loose enough
+# for refactorings that remove closures (one per derived struct)
+BODY_FLOORS = {"zvt_builder": 50, "zvt": 250, "zvt_feig_terminal": 75}
 
 
 class FactError(Exception):
